@@ -61,10 +61,19 @@ fn to_source<const N: usize>(inp: &Input<N>) -> String {
     s
 }
 
+/// The ONLY place that names the fields of `Lexer` (a change of the struct needs one edit
+/// here; until then the unit reports UNDECIDED, not a verdict).  The state is the one
+/// Lexer::new(source) establishes for a source whose chars are `v` -- by the meaning of
+/// `source.chars().collect()`; executing String -> Vec<char> symbolically is out of CBMC's
+/// reach (measured: > 400 s at 4 chars).
+fn lexer_on(v: Vec<char>) -> Lexer {
+    Lexer { chars: v, index: 0, tokens: Vec::with_capacity(4) }
+}
+
 fn mk_lexer<const N: usize>(inp: &Input<N>) -> Lexer {
     let mut v = inp.cs.to_vec();
     v.truncate(inp.len);
-    Lexer { chars: v, index: 0, tokens: Vec::with_capacity(4) }
+    lexer_on(v)
 }
 
 fn mk_ctx(source: String) -> StaticsContext {
@@ -469,7 +478,7 @@ fn line_comment_skip() {
     let total = inp.len + 2;
     let mut v = a.to_vec();
     v.truncate(total);
-    let mut lx = Lexer { chars: v, index: 0, tokens: Vec::with_capacity(4) };
+    let mut lx = lexer_on(v);
     arm_slash(&mut lx);
     let mut end = 2;
     while end < total && inp.cs[end - 2] != '\n' {
@@ -499,7 +508,7 @@ fn block_comment_skip() {
     let total = inp.len + 2;
     let mut v = a.to_vec();
     v.truncate(total);
-    let mut lx = Lexer { chars: v, index: 0, tokens: Vec::with_capacity(4) };
+    let mut lx = lexer_on(v);
     arm_slash(&mut lx);
     // first "*/" at or after position 2
     let mut close = usize::MAX;
@@ -656,7 +665,7 @@ fn tokenize_total() {
 
 /// every keyword is recognised from its own spelling and is as long as it (concrete, loop over the table)
 #[kani::proof]
-#[kani::unwind(12)]
+#[kani::unwind(35)]
 #[kani::stub(core::str::count::count_chars, stub_count_chars)]
 fn keyword_table() {
     const KW: [&str; 33] = [
@@ -664,17 +673,19 @@ fn keyword_table() {
         "except", "fn", "match", "and", "or", "not", "break", "continue", "return", "while", "for", "in",
         "if", "else", "task", "nil", "true", "false", "int", "float", "bool", "string", "void",
     ];
-    let i: u8 = kani::any();
-    kani::assume((i as usize) < KW.len());
-    let w = KW[i as usize];
-    match TokenKind::keyword_from_str(w) {
-        Some(k) => {
-            assert!(k.is_keyword(), "C04.keyword_table: keyword_from_str yields keywords only");
-            assert!(k.nchars() == w.len(), "C04.keyword_table: a keyword token is as long as its spelling");
+    let mut i = 0;
+    while i < KW.len() {
+        let w = KW[i];
+        match TokenKind::keyword_from_str(w) {
+            Some(k) => {
+                assert!(k.is_keyword(), "C04.keyword_table: keyword_from_str yields keywords only");
+                assert!(k.nchars() == w.len(), "C04.keyword_table: a keyword token is as long as its spelling");
+            }
+            None => assert!(false, "C04.keyword_table: every keyword is recognised from its spelling"),
         }
-        None => assert!(false, "C04.keyword_table: every keyword is recognised from its spelling"),
+        i += 1;
     }
-    kani::cover!(true, "reachable");
+    kani::cover!(i == 33, "reachable: whole table visited");
 }
 
 // ================================================================== C33.lex.span.byte_offsets
